@@ -1,0 +1,15 @@
+//go:build verif
+
+package ocimem
+
+// VerifHook, when non-nil, is called at points between two critical
+// sections of an operation (named by point) so that a test harness can
+// park a goroutine there or widen the window. It must be set before
+// the registry is used concurrently.
+var VerifHook func(point string)
+
+func verifYield(point string) {
+	if h := VerifHook; h != nil {
+		h(point)
+	}
+}
